@@ -210,6 +210,26 @@ def check_unfolded(ctx, P, path_ids, seg_table, U, update_ids, label):
                 if t is not None and id(t) in originals:
                     ctx.violation("unfolded-reference-leaves-the-copy", f"{type(o).__name__}.{attr} of the unfolded part refers to an object of the original part", w)
                     return
+    # ---- ties and slurs of the unfolded part join neighbours of one copy: a tie is answered by the note it points to, which
+    # begins where the tied note ends; a slur does not run backwards
+    ctx.check()
+    for o in all_u:
+        if isinstance(o, S.GenericNote):
+            for attr, back in (("tie_next", "tie_prev"), ("tie_prev", "tie_next")):
+                t_ = getattr(o, attr, None)
+                if t_ is None:
+                    continue
+                a_, b_ = (o, t_) if attr == "tie_next" else (t_, o)
+                if getattr(t_, back, None) is not o or a_.end is None or b_.start is None or a_.end.t != b_.start.t:
+                    ctx.violation("unfolded-tie-joins-notes-of-different-copies", f"{getattr(o, 'id', None)}.{attr} -> {getattr(t_, 'id', None)}: "
+                                  f"[{o.start.t},{o.end.t if o.end else None}) and [{t_.start.t if t_.start else None},{t_.end.t if t_.end else None}), "
+                                  f"answered: {getattr(t_, back, None) is o}", w)
+                    return
+        elif isinstance(o, S.Slur):
+            sn, en = getattr(o, "start_note", None), getattr(o, "end_note", None)
+            if sn is not None and en is not None and sn.start is not None and en.start is not None and sn.start.t > en.start.t:
+                ctx.violation("unfolded-slur-runs-backwards", f"slur from the note at {sn.start.t} to the note at {en.start.t}", w)
+                return
 
 
 def install(ctx):
